@@ -410,6 +410,29 @@ class Source:
             raise SliceError("sub-expression '%s' not found in %s" % (pattern, span.name or self.path))
         return out
 
+    def find_arm(self, pattern, within=None):
+        """Match-arm slice: `pattern` is the arm head up to and including `=>`; returns the arm's value expression as a Span
+        (a `{..}` block, or the expression up to the arm-separating comma)."""
+        span = within or self.whole()
+        want = [t.text for t in lex(pattern) if t.kind != "comment"]
+        code = self.tokens_in(span.start, span.end)
+        for i in range(len(code) - len(want)):
+            if all(code[i + k].text == w for k, w in enumerate(want)):
+                j = i + len(want)
+                if code[j].text == "{":
+                    return Span(self, code[j].start, self.match_close(code[j].start) + 1, span.name + "::arm(" + pattern + ")")
+                k = j
+                while k < len(code):
+                    t = code[k]
+                    if t.kind == "punct" and t.text in OPEN:
+                        close = self.match_close(t.start)
+                        while code[k].start < close:
+                            k += 1
+                    elif t.kind == "punct" and (t.text == "," or t.text in CLOSE):
+                        return Span(self, code[j].start, t.start, span.name + "::arm(" + pattern + ")")
+                    k += 1
+        raise SliceError("match arm '%s' not found in %s" % (pattern, span.name or self.path))
+
     def find_stmt(self, pattern, within=None):
         """Statement-level slice: from the first token of `pattern` to the terminating ';' at nesting depth 0."""
         span = within or self.whole()
